@@ -303,6 +303,8 @@ impl<const A: usize, const L: usize> MarketDyn for Market<A, L> {
     fn reload_file(&self, pretty: bool) -> Result<Box<dyn MarketDyn>, String> {
         let p = crate::scratch_dir().join(format!("msnap_{}_{:?}.json", std::process::id(), std::thread::current().id()));
         let r = (|| {
+            // saving over an existing (for the compact form: longer) snapshot replaces it
+            self.save_json(&p, !pretty).map_err(|e| e.to_string())?;
             self.save_json(&p, pretty).map_err(|e| e.to_string())?;
             let m = Market::<A, L>::load_json(&p).map_err(|e| e.to_string())?;
             Ok(Box::new(m) as Box<dyn MarketDyn>)
